@@ -1,5 +1,6 @@
 import ZmqVerif.Lemmas.FQCons
 import ZmqVerif.Lemmas.WorldHist
+import ZmqVerif.Lemmas.Decode
 /-!
 # C05 — receive delivers each peer's messages exactly once, whole and in order
 
@@ -151,5 +152,49 @@ example :
   · first
       | (obtain ⟨_, rfl⟩ := hj; subst hk; simp)
       | (obtain ⟨_, rfl⟩ := hk; subst hj; simp)
+
+
+open Zmq.W in
+/-- for the socket types without an envelope of their own (PULL, SUB, DEALER, XPUB, …) what `recv` returned for a consumed
+message IS that message, frame for frame — over every history -/
+theorem C05_world_verbatim {t : SockType} (ht : t ≠ .router ∧ t ≠ .rep) {ps0 : Pipes} {m0 : Streams} {ps : Pipes} {m : Streams}
+    {taken : Ident → List Item} {rev : Nat → Bytes} {log : List (Ident × Msg × POut)}
+    (h : RecvRun t ps0 m0 ps m taken rev log) :
+    ∀ e ∈ log, e.2.2 = .ready (.okMsg e.2.1) := by
+  intro e he
+  have hd : ∀ k w, deliver t k w = some w := by
+    intro k w
+    cases t <;> simp_all [deliver]
+  rcases h.log_spec e he with ⟨r, h1, h2⟩ | ⟨x, _, h2⟩
+  · rw [hd] at h2; cases h2; exact h1
+  · rw [hd] at h2; cases h2
+
+
+open Zmq.W in
+/-- **From one socket's sends to another socket's recvs.**  A connection `k` whose reader starts behind the handshake
+(framing state, nothing buffered, nothing waiting) and on which — in ANY segmentation, interleaved with anything else —
+exactly the bytes `encodeMsg m₁ ++ encodeMsg m₂ ++ …` have arrived: by `C10_world_to_poll` / `_rr_poll` that is what
+the sends of `m₁, m₂, …` to this connection have written (`wire = base ++ encodeMsg m`, each once, whole).  Then over
+every history the messages `recv` has consumed from `k`, followed by the complete ones still waiting, are EXACTLY
+`m₁, m₂, …` — in order, each once, frame boundaries intact — and (by `RecvRun.log_spec`) each was handed to the
+application as the socket type presents it. -/
+theorem C05_world_end_to_end {t : SockType} {ps0 : Pipes} {m0 : Streams} {ps : Pipes} {m : Streams}
+    {taken : Ident → List Item} {rev : Nat → Bytes} {log : List (Ident × Msg × POut)}
+    (h : RecvRun t ps0 m0 ps m taken rev log) (k : Ident) (rd0 rd : Rd)
+    (h0 : ilookup m0 k = some rd0) (hk : ilookup m k = some rd)
+    (hstart : rd0.dec = Dec.framing ∧ rd0.buf = [] ∧ inbufOf ps0 rd0.pipe = [])
+    (ms : List Msg) (hne : ∀ x ∈ ms, x ≠ []) (h64 : ∀ x ∈ ms, ∀ f ∈ x, f.length < 2 ^ 64)
+    (hbytes : rev rd0.pipe = (ms.map encodeMsg).flatten) :
+    (log.filter (fun e => e.1 == k)).map (·.2.1) ++ msgsOf (rd.items ps) = ms := by
+  rw [← h.exactly_once k rd0 rd h0 hk]
+  obtain ⟨h1, h2, h3⟩ := hstart
+  simp only [total, h1, h2, h3, hbytes, List.nil_append]
+  rw [run_encodeMsgs ms hne h64]
+  have hm : ∀ l : List Msg, msgsOf (l.map Item.message) = l := by
+    intro l
+    induction l with
+    | nil => rfl
+    | cons x xs ih => simp only [msgsOf, List.map_cons, List.filterMap_cons] at ih ⊢; rw [ih]
+  exact hm ms
 
 end Zmq.C05
